@@ -168,6 +168,16 @@ func (vt *Model) StartWithSize(cmd *exec.Cmd, width int, height int) error {
 	go func() {
 		defer vt.recover()
 		for {
+			// Deliver pending events first. postEvent is called by
+			// this goroutine (from update), which is also the only
+			// reader of vt.events: if the channel were full the send
+			// would block forever
+			select {
+			case ev := <-vt.events:
+				vt.eventHandler(ev)
+				continue
+			default:
+			}
 			select {
 			case seq := <-vt.parser.Next():
 				switch seq := seq.(type) {
